@@ -269,6 +269,10 @@ class DirectiveArgumentDefaultValueChange(SchemaChange):
         self.directive = directive
         self.old_argument = old_argument
         self.new_argument = new_argument
+        # Without its default value a non-null argument becomes required:
+        # documents which relied on the default are no longer valid.
+        if new_argument.required and not old_argument.required:
+            self.severity = SchemaChangeSeverity.BREAKING
 
 
 class DirectiveArgumentChangedType(SchemaChange):
@@ -358,6 +362,10 @@ class FieldArgumentDefaultValueChange(SchemaChange):
         self.field = field
         self.old_argument = old_argument
         self.new_argument = new_argument
+        # Without its default value a non-null argument becomes required:
+        # documents which relied on the default are no longer valid.
+        if new_argument.required and not old_argument.required:
+            self.severity = SchemaChangeSeverity.BREAKING
 
 
 class FieldArgumentChangedType(SchemaChange):
@@ -548,6 +556,10 @@ class InputFieldDefaultValueChange(SchemaChange):
         self.type = input_type
         self.old_field = old_field
         self.new_field = new_field
+        # Without its default value a non-null input field becomes required:
+        # documents which relied on the default are no longer valid.
+        if new_field.required and not old_field.required:
+            self.severity = SchemaChangeSeverity.BREAKING
 
 
 class InputFieldChangedType(SchemaChange):
